@@ -30,8 +30,35 @@ def load(pid):
         raise
 
 
-def audit():
-    """Development-wide hygiene: no admits, axioms, disabled checks."""
+def closure(targets):
+    """.v files the given targets depend on (transitively), via coqdep"""
+    allv = []
+    for root, _, files in os.walk(COQ):
+        if root.endswith("Cases"):
+            continue
+        allv += [os.path.relpath(os.path.join(root, f), COQ) for f in files if f.endswith(".v")]
+    p = subprocess.run(["coqdep", "-Q", ".", "QV"] + allv, cwd=COQ, capture_output=True, text=True)
+    deps = {}
+    for line in p.stdout.splitlines():
+        if ":" not in line:
+            continue
+        lhs, rhs = line.split(":", 1)
+        vo = [x for x in lhs.split() if x.endswith(".vo")]
+        if not vo:
+            continue
+        deps[vo[0]] = [x for x in rhs.split() if x.endswith(".vo")]
+    seen, todo = set(), list(targets)
+    while todo:
+        t = todo.pop()
+        if t in seen:
+            continue
+        seen.add(t)
+        todo += deps.get(t, [])
+    return {t[:-1] for t in seen}
+
+
+def audit(only=None):
+    """Hygiene: no admits, axioms, disabled checks (development-wide, or restricted to the files in `only`)."""
     bad = []
     pat = re.compile(r"\b(Admitted|admit|Axiom|Axioms|Parameter|Parameters|Conjecture|Admit Obligations|bypass_check|Unset Guard Checking|Unset Positivity Checking|Unset Universe Checking|type-in-type|impredicative-set)\b")
     for root, _, files in os.walk(COQ):
@@ -39,6 +66,8 @@ def audit():
             continue
         for f in files:
             if not f.endswith(".v"):
+                continue
+            if only is not None and os.path.relpath(os.path.join(root, f), COQ) not in only:
                 continue
             txt = open(os.path.join(root, f)).read()
             code = re.sub(r"\(\*.*?\*\)", "", txt, flags=re.S)
@@ -176,7 +205,7 @@ def run(pid, tier, seed):
     audit_bad = []
     chk = ""
     if ctx.thorough:
-        audit_bad = audit()
+        audit_bad = audit(only=closure(targets))
         if audit_bad:
             broken.append(("audit", audit_bad[:20]))
         if ok and targets and os.environ.get("VERIF_NO_COQCHK") != "1":
